@@ -150,7 +150,7 @@ fn check(e: &Expression, case: &str, rep: &mut Report) {
                 rep.violation(&format!("C12:not-named:{}", uns[0].0), &format!("refused, but the message does not name the construct ({:?}): {:?}", uns.iter().map(|u| &u.0).collect::<Vec<_>>(), msg), case, J::obj(vec![("tree", J::s(format!("{:?}", e)))]));
             } else {
                 rep.count("refused_and_named");
-                if rep.samples.len() < 6 && uns[0].2 {
+                if rep.samples.is_empty() || (rep.samples.len() < 6 && uns[0].2) {
                     rep.sample(J::obj(vec![("expression", J::s(render_default(e).unwrap_or_else(|| format!("{:?}", e)))), ("unsupported", J::s(format!("{:?}", uns.iter().map(|u| &u.0).collect::<Vec<_>>()))), ("message", J::s(msg))]));
                 }
             }
@@ -174,7 +174,7 @@ pub fn run(ctx: &Ctx, rep: &mut Report) {
         }
         check(&e, &format!("alone:{}", i), rep);
     });
-    let n = ctx.pick(5000, 300_000);
+    let n = ctx.pick(5000, 2_000_000);
     par_cases(ctx, "tree", n, rep, |i, rep| {
         let mut r = Rng::for_case(ctx.seed, "tree", i);
         let leaves = 1 + r.usize(7);
